@@ -32,6 +32,27 @@ def exc_isa(cls, parent):
     return False
 
 
+_QCACHE = {}
+
+
+def _has_quantifier(t):
+    i = t.get_id()
+    if i in _QCACHE:
+        return _QCACHE[i]
+    seen, todo, r = set(), [t], False
+    while todo:
+        x = todo.pop()
+        if x.get_id() in seen:
+            continue
+        seen.add(x.get_id())
+        if z3.is_quantifier(x):
+            r = True
+            break
+        todo.extend(x.children())
+    _QCACHE[i] = r
+    return r
+
+
 class Obl:
     __slots__ = ("name", "hyps", "goal", "kind", "meta")
 
@@ -47,6 +68,7 @@ class Engine:
         self.prefix = ""
         self.paths = 0
         self.feas_timeout_ms = 3000
+        self.full_feas_timeout_ms = 400
         self.mod = None
         self.cur_contract = None
         self.loop_ordinal = {}
@@ -56,13 +78,30 @@ class Engine:
 
     # ------------------------------------------------------------------ solver helpers
     def feasible(self, st):
-        """False only if the path condition is provably unsat (unknown keeps the path: sound)."""
+        """False only if the path condition is provably unsat (unknown keeps the path: sound).
+
+        Two stages: the quantifier-free conjuncts alone (fast, decides most branches), then the full path condition
+        under a short budget (prunes paths that are dead only because of an invariant)."""
         key = tuple(c.get_id() for c in st.pc)
         if key in self._feas_cache:
             return self._feas_cache[key]
         self.stats["feas_checks"] += 1
+        qf = [c for c in st.pc if not _has_quantifier(c)]
         s = z3.Solver()
-        s.set("timeout", self.feas_timeout_ms)
+        s.set("timeout", 2000)
+        for c in qf:
+            s.add(c)
+        for c in lit_axioms():
+            s.add(c)
+        r = s.check()
+        if r == z3.unsat:
+            self._feas_cache[key] = False
+            return False
+        if len(qf) == len(st.pc):
+            self._feas_cache[key] = True
+            return True
+        s = z3.Solver()
+        s.set("timeout", self.full_feas_timeout_ms)
         for c in st.pc:
             s.add(c)
         for c in lit_axioms():
@@ -331,6 +370,9 @@ class Engine:
                 return VFunc("repo", name)
             if name in self.mod.classes:
                 return VClass(name)
+            c = self.module_constant(name)
+            if c is not None:
+                return c
         if name in B.TYPE_NAMES:
             return VClass(name)
         if name in B.BUILTINS:
@@ -341,8 +383,72 @@ class Engine:
             return VFunc("repo", name)
         if name in ("logger", "LOGGER"):
             return VOpaque("logger")
-        if name in B.MODULES:
-            return VConc(("module", name))
+        if name in B.MODULES or (self.mod is not None and name in self.mod.imports and self.mod.imports[name][0] is None):
+            real = self.mod.imports[name][1] if self.mod is not None and name in self.mod.imports else name
+            return VConc(("module", {"np": "numpy", "pd": "pandas"}.get(real, real)))
+        return None
+
+    def module_constant(self, name):
+        """Module-level constants: imported primitives are read from the installed dependency (trusted),
+        module-level list/tuple displays of such constants become tuples."""
+        import importlib
+        mi = self.mod
+        if name in mi.imports:
+            modname, orig = mi.imports[name]
+            if modname is None:
+                return None
+            try:
+                if modname.startswith("."):
+                    return None
+                val = getattr(importlib.import_module(modname), orig)
+            except Exception:  # noqa
+                return None
+            return self.py_constant(val)
+        if name in mi.globals_assign:
+            node = mi.globals_assign[name]
+            if isinstance(node, (ast.List, ast.Tuple)):
+                items = []
+                for e in node.elts:
+                    if isinstance(e, ast.Name):
+                        v = self.module_constant(e.id)
+                    elif isinstance(e, ast.Constant):
+                        v = self.py_constant(e.value)
+                    else:
+                        v = None
+                    if v is None:
+                        return None
+                    items.append(v)
+                return VTuple(items)
+            if isinstance(node, ast.Constant):
+                return self.py_constant(node.value)
+        return None
+
+    def py_constant(self, val):
+        if val is None:
+            return NONE
+        if isinstance(val, bool):
+            return VBool(val)
+        if isinstance(val, int):
+            return VInt(val)
+        if isinstance(val, float):
+            return xr_const(val)
+        if isinstance(val, str):
+            return VConc(val)
+        if isinstance(val, type) and issubclass(val, BaseException):
+            for b in val.__mro__[1:2]:
+                EXC_PARENTS.setdefault(val.__name__, b.__name__)
+            return VClass(val.__name__)
+        if isinstance(val, dict) and all(isinstance(k, str) for k in val):
+            out = {}
+            for k, v in val.items():
+                c = self.py_constant(v)
+                if c is None:
+                    return None
+                out[k] = c
+            return VConc(out)
+        import types
+        if isinstance(val, types.ModuleType):
+            return VConc(("module", val.__name__))
         return None
 
     def e_JoinedStr(self, node, st, fid):
@@ -624,22 +730,37 @@ class Engine:
         if isinstance(v, VRef):
             if name == "__class__":
                 return [("ok", st, VClass(v.cls))]
-            r = self.class_attr(st, v, v.cls, name)
-            if r is not None:
-                return r
-            if name in self.reg.fields:
-                return [("ok", st, self.heap_read(st, name, v.t))]
-            if default is not None:
-                return [("ok", st, default)]
-            raise Unsupported(f"attribute {v.cls}.{name} has no declared field, property or contract")
+            if (v.cls, name) in getattr(self.reg, "absent_attrs", ()):
+                return [self.raise_(st, "AttributeError")]
+            if v.cls not in getattr(self.reg, "null_checked", ()):
+                return self._getattr_ref(st, v, name, default)
+            outs = []
+            for isnull, s2 in self.branch(st, v.t == NULL):
+                if isnull:
+                    outs.append(self.raise_(s2, "AttributeError"))
+                else:
+                    outs.extend(self._getattr_ref(s2, v, name, default))
+            return outs
         if isinstance(v, VClass):
             return [("ok", st, VFunc("unbound", v.name, name))]
+        if isinstance(v, VNone):
+            return [self.raise_(st, "AttributeError")]
         if isinstance(v, VConc) and isinstance(v.py, tuple) and v.py[0] == "module":
+            import importlib
+            try:
+                val = getattr(importlib.import_module(v.py[1]), name)
+                c = self.py_constant(val)
+                if c is not None:
+                    return [("ok", st, c)]
+            except Exception:  # noqa
+                pass
             g = self.global_name(name, st)
             if g is not None:
                 return [("ok", st, g)]
         if isinstance(v, VOpaque):
             return [("ok", st, VOpaque(v.what + "." + name))]
+        if isinstance(v, (VConc, VStr)):
+            return [("ok", st, VFunc("bound", v, name))]
         if isinstance(v, VFunc) and v.kind == "super":
             return [("ok", st, VFunc("partial", VFunc("unbound", v.a, name), (v.b,), {}))]
         if isinstance(v, VFunc) and name == "__name__":
@@ -650,6 +771,16 @@ class Engine:
         if isinstance(v, (VExc,)) and name == "args":
             return [("ok", st, VTuple(v.args))]
         raise Unsupported(f"getattr {name} on {v!r}")
+
+    def _getattr_ref(self, st, v, name, default=None):
+        r = self.class_attr(st, v, v.cls, name)
+        if r is not None:
+            return r
+        if name in self.reg.fields:
+            return [("ok", st, self.heap_read(st, name, v.t))]
+        if default is not None:
+            return [("ok", st, default)]
+        raise Unsupported(f"attribute {v.cls}.{name} has no declared field, property or contract")
 
     def class_attr(self, st, recv, clsname, name):
         """Property getter / bound method resolved through the class table and the contract registry."""
@@ -683,6 +814,16 @@ class Engine:
         if field in st.heap:
             return st.heap[field]
         return self.heap_init(field)
+
+    def kind_axioms(self, st):
+        """extended-real kind arrays only hold -1, 0, +1"""
+        cs = []
+        for f, kind in self.reg.fields.items():
+            if kind == "real":
+                ka, _ = self.heap_arr(st, f)
+                x = z3.Const(fresh_name("kx"), Ref)
+                cs.append(FA([x], z3.And(ka[x] >= -1, ka[x] <= 1), patterns=[ka[x]]))
+        return cs
 
     def heap_init(self, field, tag="H0"):
         kind = self.reg.fields[field]
@@ -758,6 +899,13 @@ class Engine:
                     return h(self, st, f, pos, kw)
         if isinstance(f, VClass):
             return self.construct(st, f.name, pos, kw)
+        if isinstance(f, (VRef, VObj)):
+            h = self.hooks.get("call_object")
+            if h:
+                r = h(self, st, f, pos, kw)
+                if r is not None:
+                    return r
+            return self.call_method(st, f, "__call__", pos, kw)
         if isinstance(f, VOpaque):
             return [("ok", st, VOpaque(f.what + "()"))]
         raise Unsupported(f"call of {f!r}")
@@ -785,6 +933,8 @@ class Engine:
         if isinstance(recv, (VObj, VRef)):
             for c in self.mro(recv.cls):
                 key = f"{c}.{name}"
+                if key in getattr(self.reg, "static", ()):
+                    return self.apply_contract(st, self.reg.get(key), list(pos), kw)
                 if key in self.reg.inline:
                     ci = self.class_info(c)
                     return self.call_closure(st, ci.methods[name], None, [recv] + list(pos), kw, module=ci.module)
@@ -798,6 +948,23 @@ class Engine:
             return B.container_method(self, st, recv, name, pos, kw)
         if isinstance(recv, VOpaque):
             return [("ok", st, VOpaque(recv.what + "." + name + "()"))]
+        if isinstance(recv, VConc) and isinstance(recv.py, dict) and name == "get":
+            # constant dict with (possibly symbolic) string key: case split over the keys
+            key, dflt = pos[0], (pos[1] if len(pos) > 1 else NONE)
+            res, rest = [], st
+            for k, val in recv.py.items():
+                c = self.eq(rest, key, VConc(k))
+                miss = None
+                for hit, s2 in self.branch(rest, c):
+                    if hit:
+                        res.append(("ok", s2, val))
+                    else:
+                        miss = s2
+                if miss is None:
+                    return res
+                rest = miss
+            res.append(("ok", rest, dflt))
+            return res
         if isinstance(recv, VConc) and isinstance(recv.py, str):
             return B.str_method(self, st, recv, name, pos, kw)
         if isinstance(recv, VStr):
